@@ -324,6 +324,8 @@ class Machine:
         self._index = None
         self._lin = {}
         self.linear_only = True
+        self._stack = []         # conditions currently asserted on the incremental solver, one push level each
+        self._base_pushed = False
         self.call_log = None     # when a list: every entry into a `::add` function is recorded as (self type, argument terms)
 
     # ---- solver helpers
@@ -354,21 +356,36 @@ class Machine:
         self._lin[key] = (e, r)     # keep the term alive so that its id is not reused
         return r
 
-    def feasible(self, conds):
+    def feasible(self, conds, extra=None):
         """Path feasibility, decided on the linear part of the path condition only: dropping the nonlinear conjuncts
         over-approximates feasibility (an infeasible path may be kept, never the reverse), which is sound for
-        'holds on every path' obligations and keeps each query in linear arithmetic."""
+        'holds on every path' obligations and keeps each query in linear arithmetic.
+        The solver's assertion stack mirrors the longest common prefix with the previous query (depth-first exploration
+        makes consecutive path conditions share almost everything)."""
         import time
         t0 = time.time()
-        self.solver.push()
         try:
-            for c in self.base:
-                self.solver.add(c)
-            for c in conds:
+            conds = list(conds)
+            # synchronise the assertion stack with `conds` (identity of the condition objects)
+            k = 0
+            n = min(len(self._stack), len(conds))
+            while k < n and self._stack[k] is conds[k]:
+                k += 1
+            while len(self._stack) > k:
+                self.solver.pop()
+                self._stack.pop()
+            if not self._stack and not self._base_pushed:
+                for c in self.base:
+                    self.solver.add(c)
+                self._base_pushed = True
+            for c in conds[k:]:
+                self.solver.push()
+                self._stack.append(c)
                 if c is True:
                     continue
                 if c is False:
-                    return False
+                    self.solver.add(z3.BoolVal(False))
+                    continue
                 if self.linear_only and not self.is_linear(c):
                     continue
                 self.solver.add(c)
@@ -379,7 +396,6 @@ class Machine:
                 return True
             return r == z3.sat
         finally:
-            self.solver.pop()
             dt = time.time() - t0
             self.solver_s += dt
             if dt > 2.0 and os.environ.get("MIRSYM_VERBOSE"):
